@@ -4,6 +4,6 @@ prop=$1; pre=$2
 for i in 1 2; do
   out=/tmp/$pre-$prop-$i
   [ -f $out/patch.diff ] || { echo "$out: missing"; continue; }
-  n=1; while [ -e /verif/seeded/$prop-$n ] || [ -e /verif/seeded/rejected/$prop-$n ]; do n=$((n+1)); done
+  n=1; while [ -e /verif/seeded/$prop-$n ] || [ -e /verif/seeded/rejected/$prop-$n ] || ls -d /verif/seeded/rejected/$prop-$n-* >/dev/null 2>&1; do n=$((n+1)); done
   /verif/tools/confirm_seed.sh $out $prop-$n $prop
 done
